@@ -36,7 +36,7 @@ def gen_cases(rng, tier):
     for i in range(40 if tier == 'quick' else 800):
         sub = c18.gen_cases(rng, 'quick')[:1][0]
         h = []
-        for t in sub['hist']:
+        for t in [('t' + t[1:]) if t[0] == 'm' else t for t in sub['hist']]:
             h.append(t)
             if t[0] == 't' and rng.random() < 0.6:
                 h.append('q')
@@ -55,7 +55,8 @@ def gen_cases(rng, tier):
     for i in range(30 if tier == 'quick' else 600):
         sub = c19.gen_cases(rng, 'quick')[:1][0]
         h = []
-        for t in sub['hist']:
+        # (iterations of several milliseconds belong to C18 / C19; the paired runs here advance one millisecond at a time)
+        for t in [('t' + t[1:]) if t[0] == 'm' else t for t in sub['hist']]:
             h.append(t)
             if t[0] == 't' and rng.random() < 0.6:
                 h += ['t%d' % rng.choice([1, 40, 400]), 'q']
